@@ -239,7 +239,9 @@ class Memory:
                 return v.elems[i] if 0 <= i < len(v.elems) else None
             if isinstance(v, Slice) and v.elem is None and isinstance(v.base, str) and el[1] is not None and not v.base.startswith("const:"):
                 # a byte of a named byte sequence: the same name the nom / byteorder contracts give a one-byte read
-                return self.eng.named_int("rd[%s@%s:1:1]" % (v.base, v.off.add(el[1])), 8, False)
+                nm_ = "rd[%s@%s:1:1]" % (v.base, v.off.add(el[1]))
+                self.eng.rd_syms.setdefault(nm_, (v.base, v.off.add(el[1]), 1, "1"))
+                return self.eng.named_int(nm_, 8, False)
             if isinstance(v, (Slice, Cont)):
                 return v.elem if v.elem is not None else None
             return None
